@@ -66,7 +66,8 @@ func TestC11Pedersen(t *testing.T) {
 
 // run performs one ceremony or, half of the time, two independent ceremonies of the same members one after
 // the other ("repeated independent ceremonies"); in the second one the network re-delivers public-share
-// messages of the first (late duplicates), which must not leak into its result.
+// messages and deal / response / justification bundles of the first (leftovers of an earlier attempt), which must
+// not leak into its result.
 func run(rt *rapid.T, maxN int) {
 	n := rapid.IntRange(3, maxN).Draw(rt, "n")
 	// the generator follows what dkg.Run accepts: 2..n.
@@ -79,7 +80,7 @@ func run(rt *rapid.T, maxN int) {
 	}
 	var stale []*memnet.Frame
 	for _, f := range first.All {
-		if strings.Contains(string(f.Proto), "val_pubkey_share") && rapid.IntRange(0, 2).Draw(rt, "replayStale") != 0 {
+		if p := string(f.Proto); (strings.Contains(p, "val_pubkey_share") || strings.Contains(p, "_bundle")) && rapid.IntRange(0, 2).Draw(rt, "replayStale") != 0 {
 			stale = append(stale, f)
 		}
 	}
@@ -135,6 +136,8 @@ func ceremony(rt *rapid.T, n, th, v int, label string, stale []*memnet.Frame) *m
 	finished := func() int { mu.Lock(); defer mu.Unlock(); return done }
 	reordered := false
 	idle := 0
+	duplicates := 0
+	var delivered []*memnet.Frame
 	for steps := 0; finished() < n; steps++ {
 		if steps > 50000 {
 			panic("HARNESS-ERROR: pedersen ceremony did not finish in 50000 steps")
@@ -157,16 +160,33 @@ func ceremony(rt *rapid.T, n, th, v int, label string, stale []*memnet.Frame) *m
 				reordered = true
 			}
 		}
-		net.Deliver(net.Take(k))
+		fr := net.Take(k)
+		net.Deliver(fr)
+		// (only the ceremony's own point-to-point messages are duplicated: bundles and public-key shares.
+		// A duplicated node-key broadcast can fill the board's small inbox before the node reads it and hang
+		// the ceremony for good — a liveness matter, outside this property, which is about successful ceremonies)
+		if p := string(fr.Proto); strings.Contains(p, "val_pubkey_share") || strings.Contains(p, "_bundle") {
+			delivered = append(delivered, fr)
+		}
 		synctest.Wait()
+		// the network may deliver a message a second time, much later (a retry that was slow): also a deal
+		// or response of an earlier validator's run while a later one is under way
+		if len(delivered) > 0 && rapid.IntRange(0, 11).Draw(rt, "lateDuplicate") == 0 {
+			old := delivered[rapid.IntRange(0, len(delivered)-1).Draw(rt, "duplicateOf")]
+			net.Deliver(net.InjectRaw(old.From, old.To, old.Proto, old.Req))
+			net.Take(net.NPending() - 1)
+			duplicates++
+			synctest.Wait()
+		}
 	}
 	cancel()
 	for net.NPending() > 0 {
 		net.Drop(net.Take(0))
 	}
 	synctest.Wait()
-	// kyber's phaser goroutines sleep through the remaining phases; let them run out (virtual time).
-	time.Sleep(10 * phase)
+	// kyber's phaser goroutines sleep through the remaining phases; let them run out (virtual time). A late
+	// duplicate that nobody reads any more holds its stream handler until the receive timeout: wait that out too.
+	time.Sleep(10*phase + 3*time.Minute)
 	synctest.Wait()
 	if err := firstErr(res, &mu); err != nil {
 		rt.Fatalf("CEREMONY FAILED without any fault: pedersen n=%d t=%d v=%d: %v", n, th, v, err)
@@ -184,6 +204,9 @@ func ceremony(rt *rapid.T, n, th, v int, label string, stale []*memnet.Frame) *m
 	classes := []string{"transport:pedersen", "pedersen_ceremony:" + label, fmt.Sprintf("pedersen_cfg:n%d_t%d", n, th), fmt.Sprintf("pedersen_validators:%d", v)}
 	if reordered {
 		classes = append(classes, "pedersen_frames_reordered")
+	}
+	if duplicates > 0 {
+		classes = append(classes, "pedersen_late_duplicate_frames")
 	}
 	vstat.Case(fmt.Sprintf("pedersen/%d/%d/%d/%v/%d", n, th, v, reordered, len(net.All)), th < n || v > 1 || reordered, classes...)
 	if vstat.WantSample("pedersen") {
